@@ -810,7 +810,7 @@ def run_sharing(ck, wd, thorough, rng):
                      "double-beta configurations with its own generator): %s" % (len(DBD_SHARE_CFGS), what), {"mode": "sharing-free"})
 
 
-MT_CFGS = ["Mo100:0:4:0.5:2.0", "Mo100:0:5", "Cd106:0:4", "Co60:bkg", "Mo100:0:21", "Mo100:0:21"]
+MT_CFGS = ["Mo100:0:4:0.5:2.0", "Mo100:0:5", "Cd106:0:4", "Co60:bkg", "Mo100:0:21", "Mo100:0:21", "GAREJ:bkg", "Se82:0:5"]
 
 
 def run_mt(ck, wd, thorough):
@@ -821,7 +821,7 @@ def run_mt(ck, wd, thorough):
     cfgargs, cfgargs_plain = [], []
     for c in MT_CFGS:
         cfgargs += ["--cfg", c]
-        if not c.endswith(":21"):   # the gA configurations only matter for the data-race detector
+        if not c.endswith(":21") and not c.startswith("GAREJ"):   # the gA configurations only matter for the data-race detector
             cfgargs_plain += ["--cfg", c]
     runs = [("tsan", exe_t, ["--mode", "mt", "--phase", "gen"] + cfgargs + ["--events", "30", "--rounds", "2" if thorough else "1"]),
             ("tsan", exe_t, ["--mode", "mt", "--phase", "api"]),
@@ -829,7 +829,9 @@ def run_mt(ck, wd, thorough):
     seen = {}
     for variant, exe, args in runs:
         env = vlib.harness_env(variant)
-        env["BXDECAY0_DBD_GA_DATA_DIR"] = gadir
+        # the shipped mock table Test/g0 (resources/data/dbd_gA/./Test/g0) is the only dataset in reach: the decay0_generator gA
+        # configurations fail to initialise (their data-race relevant part is the lookup), the direct rejection shooter works
+        env["BXDECAY0_DBD_GA_DATA_DIR"] = os.path.join(vlib.repo(), "resources")
         rc, out = vlib.sh([exe] + args, timeout=600, env=env)
         phase = args[3]
         ck.add("evaluations")
